@@ -62,7 +62,10 @@ public:
     void Run(u64 cycles) {
         idle = false;
         for (u64 i = 0; i < cycles; ++i) {
-            if (idle) {
+            // Only fast-forward while no interrupt request is waiting to be latched. A request
+            // signalled by the previous tick (or by the host between two Run calls) has to be
+            // seen at this instruction boundary, exactly as when every cycle is stepped.
+            if (idle && !IsInterruptSignalled()) {
                 u64 skipped = core_timing.Skip(cycles - i - 1);
                 i += skipped;
 
@@ -147,6 +150,13 @@ public:
 
     void SignalInterrupt(u32 i) {
         interrupt_pending[i] = true;
+    }
+    bool IsInterruptSignalled() const {
+        for (const auto& pending : interrupt_pending) {
+            if (pending)
+                return true;
+        }
+        return vinterrupt_pending;
     }
     void SignalVectoredInterrupt(u32 address, bool context_switch) {
         vinterrupt_address = address;
